@@ -108,8 +108,8 @@ func runC20(e *Env) {
 	isLatestD = func(root ssa.Value, depth int) bool {
 		root = ir.Deep(root)
 		// a parameter of a helper called from several places: at every one of them
-		if p, isP := root.(*ssa.Parameter); isP && depth < 3 {
-			sites := e.StaticCallSites(p.Parent())
+		if p, isP := root.(*ssa.Parameter); isP && depth < 4 {
+			sites := e.callSitesAll(p.Parent())
 			idx := -1
 			for i, q := range p.Parent().Params {
 				if q == p {
@@ -181,7 +181,7 @@ func runC20(e *Env) {
 			for _, alt := range e.expandHelperCalls(lits, 0) {
 				found := false
 				for _, l := range alt {
-					if l.Kind == "cmp" && l.Op == token.NEQ && e.IsFieldRead(l.X, nil, field) {
+					if l.Kind == "cmp" && l.Op == token.NEQ && e.IsFieldReadAll(l.X, field) {
 						if s, ok := ir.ConstString(l.Y); ok && s == "" {
 							found = true
 						}
@@ -246,7 +246,7 @@ func runC20(e *Env) {
 	var edited ssa.Value
 	var pu *ssa.Function
 	for _, ci := range sitesOf("GetStatusByRequestID") {
-		if e.IsFieldRead(ci.Common().Args[1], nil, "Body.RequestID") {
+		if e.IsFieldReadAll(ci.Common().Args[1], "Body.RequestID") {
 			if v, ok := ci.(ssa.Value); ok {
 				for _, ref := range *v.Referrers() {
 					if ex, isE := ref.(*ssa.Extract); isE && ex.Index == 0 {
@@ -324,10 +324,19 @@ func runC20(e *Env) {
 		for _, b := range pa.Blocks {
 			for _, in := range b.Instrs {
 				c, ok := in.(*ssa.Call)
-				if !ok || !ir.IsCallTo(&c.Call, "fmt.Errorf") {
+				if !ok || !ir.IsCallTo(&c.Call, "fmt.Errorf", "errors.New") {
 					continue
 				}
-				if s, _ := ir.ConstString(c.Call.Args[0]); !strings.HasPrefix(s, "invalid action") {
+				// the message (a format, or a concatenation) starts with "invalid action"
+				msg := ir.Resolve(c.Call.Args[0])
+				for d := 0; d < 4; d++ {
+					if bo, isB := msg.(*ssa.BinOp); isB && bo.Op == token.ADD {
+						msg = ir.Resolve(bo.X)
+						continue
+					}
+					break
+				}
+				if s, _ := ir.ConstString(msg); !strings.HasPrefix(s, "invalid action") {
 					continue
 				}
 				n++
@@ -342,18 +351,27 @@ func runC20(e *Env) {
 				// no known action matched: every comparison of the action with a name is negative here
 				lits := e.DCS(c)
 				nNeg, nPos := 0, 0
-				for _, l := range lits {
-					if l.Kind == "cmp" {
-						if _, isS := ir.ConstString(l.Y); isS {
-							if l.Op == token.NEQ {
-								nNeg++
-							} else if l.Op == token.EQL {
-								nPos++
+				okNone := true
+				// (a dispatch through a table of action names: the miss of the lookup says
+				// the action equals none of the keys)
+				for _, alt := range e.expandTableLits(lits) {
+					nNeg, nPos = 0, 0
+					for _, l := range alt {
+						if l.Kind == "cmp" {
+							if _, isS := ir.ConstString(l.Y); isS {
+								if l.Op == token.NEQ {
+									nNeg++
+								} else if l.Op == token.EQL {
+									nPos++
+								}
 							}
 						}
 					}
+					if nNeg < 1 || nPos != 0 {
+						okNone = false
+					}
 				}
-				r.Check(okPure && nNeg >= 1 && nPos == 0, "postAction default: reached only when no known action matched, without side effects", e.InstrPos(c),
+				r.Check(okPure && okNone && nNeg >= 1 && nPos == 0, "postAction default: reached only when no known action matched, without side effects", e.InstrPos(c),
 					"the unknown-action refusal is reachable after a known action's effect, or known actions fall through to it", e.FactsStr("dominating conditions: ", lits))
 			}
 		}
@@ -394,7 +412,7 @@ func c20IndexUnderNameMatch(e *Env, idx ssa.Value) bool {
 		match := false
 		for _, l := range lits {
 			if l.Kind == "cmp" && l.Op == token.EQL {
-				if (e.IsFieldRead(l.X, nil, "Step.Name") && e.IsFieldRead(l.Y, nil, "Body.Step")) || (e.IsFieldRead(l.Y, nil, "Step.Name") && e.IsFieldRead(l.X, nil, "Body.Step")) {
+				if (e.IsFieldRead(l.X, nil, "Step.Name") && e.IsFieldReadAll(l.Y, "Body.Step")) || (e.IsFieldRead(l.Y, nil, "Step.Name") && e.IsFieldReadAll(l.X, "Body.Step")) {
 					match = true
 				}
 			}
